@@ -1,1 +1,298 @@
-pub fn placeholder() {}
+//! Executor for sequential histories: runs protocol lines against the real lasso, keeps a shadow
+//! specification per object and evaluates the property oracles on the implementation's own answers.
+
+use crate::{hex, unhex, HashKind, VHasher, DEFAULT_HASH_KIND};
+use lasso::{
+    Interner, IntoReader, IntoResolver, Key, Reader, Resolver, Rodeo, RodeoReader, RodeoResolver, ThreadedRodeo,
+};
+use std::cell::RefCell;
+use std::collections::HashMap;
+use std::fmt::Debug;
+use std::hash::Hash;
+use std::panic::{catch_unwind, AssertUnwindSafe};
+use std::sync::atomic::Ordering;
+
+pub trait KeyT:
+    Key + Hash + Eq + Debug + serde::Serialize + serde::de::DeserializeOwned + Send + Sync + 'static
+{
+    const CAP: u128;
+}
+impl KeyT for lasso::Spur {
+    const CAP: u128 = u32::MAX as u128;
+}
+impl KeyT for lasso::MiniSpur {
+    const CAP: u128 = u16::MAX as u128;
+}
+impl KeyT for lasso::MicroSpur {
+    const CAP: u128 = u8::MAX as u128;
+}
+impl KeyT for lasso::LargeSpur {
+    const CAP: u128 = u64::MAX as u128;
+}
+impl<const N: usize> KeyT for crate::SmallKey<N> {
+    const CAP: u128 = N as u128;
+}
+
+thread_local! {
+    static LAST_PANIC: RefCell<(String, String)> = RefCell::new((String::new(), String::new()));
+}
+
+pub fn install_panic_hook() {
+    std::panic::set_hook(Box::new(|info| {
+        let msg = if let Some(s) = info.payload().downcast_ref::<&str>() {
+            s.to_string()
+        } else if let Some(s) = info.payload().downcast_ref::<String>() {
+            s.clone()
+        } else {
+            "?".to_string()
+        };
+        let loc = info.location().map(|l| format!("{}:{}", l.file(), l.line())).unwrap_or_default();
+        LAST_PANIC.with(|p| *p.borrow_mut() = (msg, loc));
+    }));
+}
+
+/// Documented panics of the API (everything else that unwinds is a `fault`).
+fn documented_panic(msg: &str) -> bool {
+    msg.starts_with("Failed to get or intern string")
+        || msg.starts_with("Failed to get or intern static string")
+        || msg.starts_with("Key out of bounds")
+        || msg.starts_with("assertion failed: key.into_usize() < self.strings.len()")
+        || msg.starts_with("failed to clone Rodeo")
+}
+
+pub enum Caught<T> {
+    Ok(T),
+    Panic,
+    Fault(String),
+}
+
+pub fn guarded<T>(f: impl FnOnce() -> T) -> Caught<T> {
+    match catch_unwind(AssertUnwindSafe(f)) {
+        Ok(v) => Caught::Ok(v),
+        Err(_) => {
+            let (msg, loc) = LAST_PANIC.with(|p| p.borrow().clone());
+            if documented_panic(&msg) {
+                Caught::Panic
+            } else {
+                Caught::Fault(format!("{msg} @ {loc}"))
+            }
+        }
+    }
+}
+
+pub enum Obj<K: KeyT> {
+    Rodeo(Rodeo<K, VHasher>),
+    Threaded(ThreadedRodeo<K, VHasher>, bool),
+    Reader(RodeoReader<K, VHasher>, bool),
+    Resolver(RodeoResolver<K>, bool),
+    Gone,
+}
+
+impl<K: KeyT> Obj<K> {
+    pub fn kind(&self) -> &'static str {
+        match self {
+            Obj::Rodeo(_) => "rodeo",
+            Obj::Threaded(..) => "threaded",
+            Obj::Reader(..) => "reader",
+            Obj::Resolver(..) => "resolver",
+            Obj::Gone => "gone",
+        }
+    }
+    pub fn blocks(&self) -> Vec<(usize, usize, usize)> {
+        match self {
+            Obj::Rodeo(r) => r.verif_blocks(),
+            Obj::Threaded(t, _) => t.verif_blocks(),
+            Obj::Reader(r, _) => r.verif_blocks(),
+            Obj::Resolver(r, _) => r.verif_blocks(),
+            Obj::Gone => Vec::new(),
+        }
+    }
+    pub fn unordered(&self) -> bool {
+        match self {
+            Obj::Threaded(_, u) | Obj::Reader(_, u) | Obj::Resolver(_, u) => *u,
+            _ => false,
+        }
+    }
+    pub fn len(&self) -> usize {
+        match self {
+            Obj::Rodeo(r) => r.len(),
+            Obj::Threaded(t, _) => t.len(),
+            Obj::Reader(r, _) => r.len(),
+            Obj::Resolver(r, _) => r.len(),
+            Obj::Gone => 0,
+        }
+    }
+    pub fn try_resolve(&self, k: &K) -> Option<&str> {
+        match self {
+            Obj::Rodeo(r) => r.try_resolve(k),
+            Obj::Threaded(t, _) => t.try_resolve(k),
+            Obj::Reader(r, _) => r.try_resolve(k),
+            Obj::Resolver(r, _) => r.try_resolve(k),
+            Obj::Gone => None,
+        }
+    }
+    pub fn contains_key(&self, k: &K) -> bool {
+        match self {
+            Obj::Rodeo(r) => r.contains_key(k),
+            Obj::Threaded(t, _) => t.contains_key(k),
+            Obj::Reader(r, _) => r.contains_key(k),
+            Obj::Resolver(r, _) => r.contains_key(k),
+            Obj::Gone => false,
+        }
+    }
+    pub fn get(&self, s: &str) -> Option<Option<K>> {
+        match self {
+            Obj::Rodeo(r) => Some(r.get(s)),
+            Obj::Threaded(t, _) => Some(t.get(s)),
+            Obj::Reader(r, _) => Some(r.get(s)),
+            _ => None,
+        }
+    }
+    /// `(key index, string)` pairs in key order.
+    pub fn pairs(&self) -> Vec<(usize, &str)> {
+        match self {
+            Obj::Rodeo(r) => r.iter().map(|(k, s)| (k.into_usize(), s)).collect(),
+            Obj::Threaded(t, _) => {
+                let mut v: Vec<(usize, &str)> = t.iter().map(|(k, s)| (k.into_usize(), s)).collect();
+                v.sort_by_key(|x| x.0);
+                v
+            }
+            Obj::Reader(r, _) => r.iter().map(|(k, s)| (k.into_usize(), s)).collect(),
+            Obj::Resolver(r, _) => r.iter().map(|(k, s)| (k.into_usize(), s)).collect(),
+            Obj::Gone => Vec::new(),
+        }
+    }
+    pub fn mem(&self) -> Option<usize> {
+        match self {
+            Obj::Rodeo(r) => Some(r.current_memory_usage()),
+            Obj::Threaded(t, _) => Some(t.current_memory_usage()),
+            _ => None,
+        }
+    }
+    pub fn max_mem(&self) -> Option<usize> {
+        match self {
+            Obj::Rodeo(r) => Some(r.max_memory_usage()),
+            Obj::Threaded(t, _) => Some(t.max_memory_usage()),
+            _ => None,
+        }
+    }
+}
+
+/// What the harness itself knows each object must contain: distinct strings in first-intern order,
+/// and for each whether it was handed in as a pool (`'static`) string.
+#[derive(Clone, Default)]
+pub struct Shadow {
+    pub strs: Vec<Vec<u8>>,
+    pub stat: Vec<Option<usize>>,
+    pub index: HashMap<Vec<u8>, usize>,
+    /// false when the content is not predictable by the harness (e.g. after a malformed document)
+    pub tracked: bool,
+}
+
+impl Shadow {
+    pub fn new() -> Self {
+        Shadow { tracked: true, ..Default::default() }
+    }
+    pub fn from_list(l: &[Vec<u8>]) -> Self {
+        let mut s = Shadow::new();
+        for x in l {
+            s.push(x.clone(), None);
+        }
+        s
+    }
+    pub fn push(&mut self, x: Vec<u8>, st: Option<usize>) -> usize {
+        let k = self.strs.len();
+        self.index.insert(x.clone(), k);
+        self.strs.push(x);
+        self.stat.push(st);
+        k
+    }
+    pub fn clear(&mut self) {
+        self.strs.clear();
+        self.stat.clear();
+        self.index.clear();
+    }
+}
+
+pub struct Slot<K: KeyT> {
+    pub obj: Obj<K>,
+    pub shadow: Shadow,
+}
+
+#[derive(Default)]
+pub struct Stats {
+    pub ops: u64,
+    pub cases: u64,
+    pub by_op: HashMap<String, u64>,
+    pub by_result: HashMap<String, u64>,
+    pub branches: HashMap<String, u64>,
+    pub oracle_checks: u64,
+    pub sweeps: u64,
+    pub max_len: usize,
+    pub faults: u64,
+}
+
+pub struct World<K: KeyT> {
+    pub pool: Vec<&'static str>,
+    pub hasher: HashKind,
+    pub slots: Vec<Slot<K>>,
+    pub oracle: Vec<String>,
+    pub stats: Stats,
+    pub case_no: u64,
+    pub case_header: String,
+    pub line_no: u64,
+    pub ops_since_sweep: u64,
+}
+
+fn key<K: KeyT>(i: usize) -> Option<K> {
+    K::try_from_usize(i)
+}
+
+fn show_limit(n: usize) -> String {
+    if n == usize::MAX {
+        "max".into()
+    } else {
+        n.to_string()
+    }
+}
+
+fn parse_limit(s: &str) -> Option<usize> {
+    if s == "max" {
+        Some(usize::MAX)
+    } else {
+        s.parse().ok()
+    }
+}
+
+fn show_list(items: &[String]) -> String {
+    if items.is_empty() {
+        "_".into()
+    } else {
+        items.join(",")
+    }
+}
+
+fn parse_list(s: &str) -> Vec<Vec<u8>> {
+    if s == "_" {
+        Vec::new()
+    } else {
+        s.split(',').map(unhex).collect()
+    }
+}
+
+fn to_str(b: &[u8]) -> &str {
+    std::str::from_utf8(b).expect("harness strings are valid UTF-8")
+}
+
+fn err_name(e: &lasso::LassoError) -> &'static str {
+    match e.kind() {
+        lasso::LassoErrorKind::MemoryLimitReached => "err mem",
+        lasso::LassoErrorKind::KeySpaceExhaustion => "err keys",
+        lasso::LassoErrorKind::FailedAllocation => "err alloc",
+    }
+}
+
+include!("seqrun_ops.rs");
+include!("seqrun_ops2.rs");
+include!("seqrun_ops3.rs");
+include!("seqrun_ops4.rs");
